@@ -36,6 +36,10 @@ struct GMsg
 inline Bytes buildFrame(uint8_t ver, uint16_t dev, uint8_t mt, uint8_t stream, uint16_t seq, const std::vector<GMsg>& msgs, const Bytes& trailing = Bytes())
 {
     Bytes f = wire::frameHeader(ver, dev, mt, stream, seq);
+    // the reserved byte of the frame header is not always zero (one frame in four, changing from frame to frame, so
+    // that consecutive segments of a message differ in it): a receiver has to ignore it
+    if ((seq * 2654435761u >> 13) % 4 == 0)
+        f[1] = static_cast<uint8_t>(1 + (seq * 40503u >> 3) % 255);
     for (auto& m : msgs)
         wire::appendMessage(f, m.ts, m.idWord, m.flags, m.ptype, m.declared(), m.payload.data(), m.payload.size());
     wire::putBytes(f, trailing);
@@ -52,6 +56,21 @@ inline uint8_t pickStream(Rng& r)
 {
     static const uint8_t s[] = {0, 1, 255};
     return s[r.below(3)];
+}
+
+// Two distinct endpoints that a careless combination of (device id, stream id) into ONE key confuses although no bit
+// packing is involved: the decimal digits of both ids written one after the other coincide, e.g. (1,23) / (12,3),
+// (25,50) / (255,0); their sums, their digit strings and nothing else are equal.
+inline std::pair<std::pair<uint16_t, uint8_t>, std::pair<uint16_t, uint8_t>> decimalAliasPair(Rng& r)
+{
+    unsigned a = static_cast<unsigned>(r.range(1, 6000)), d = static_cast<unsigned>(r.range(1, 9)), rest = static_cast<unsigned>(r.range(0, 25));
+    unsigned s1 = static_cast<unsigned>(std::stoul(std::to_string(d) + std::to_string(rest)));
+    if (s1 > 255)
+    {
+        rest %= 10;
+        s1 = d * 10 + rest;
+    }
+    return {{static_cast<uint16_t>(a), static_cast<uint8_t>(s1)}, {static_cast<uint16_t>(a * 10 + d), static_cast<uint8_t>(rest)}};
 }
 
 // ---------------------------------------------------------------------------------------------
